@@ -60,6 +60,7 @@ type Gen struct {
 	loops    map[*ssa.BasicBlock]*loopInfo
 	backEdge map[[2]int]bool
 	epochs   map[string]string // "comp_epoch" -> sort (initial heap constants used)
+	partialSkipped int         // obligations not generated because the contract says partial
 	nepoch   int
 	warnings []string
 	callOrd  map[string]int
@@ -131,6 +132,10 @@ func (g *Gen) assert(st *State, kind, detail, goal, src string, pos token.Pos) {
 		g.nosafe++
 		return
 	}
+	if g.c != nil && g.c.Partial && kind != "callsite" && kind != "nocall" {
+		g.partialSkipped++
+		return
+	}
 	g.kindOrd[kind+"/"+detail]++
 	name := fmt.Sprintf("%s/%s/%s#%d", g.key, kind, detail, g.kindOrd[kind+"/"+detail])
 	if detail == "" {
@@ -148,6 +153,10 @@ func (g *Gen) assert(st *State, kind, detail, goal, src string, pos token.Pos) {
 // cannot be evaluated here (it names a variable that is not in scope at this point any
 // more) is an obligation that fails by name, not a machinery error.
 func (g *Gen) assertExpr(st *State, env *Env, kind, detail string, e *E, src string, pos token.Pos) {
+	if g.c != nil && g.c.Partial && kind != "callsite" && kind != "nocall" {
+		g.partialSkipped++
+		return
+	}
 	var t string
 	var msg string
 	func() {
